@@ -545,6 +545,13 @@ pub fn c03_seq_families(tier: &str) -> Vec<SeqSpec> {
     let a_pin = vec![Op::Put(0, 0), Op::Put(1, 0), Op::Del(2), Op::Iter, Op::DropIter, Op::Snap, Op::Release(0), Op::Compact(None, None)];
     fams.push(rich_family("C03-pin-rich/T300", k3(), a_pin.clone(), if t { 6 } else { 4 }, ck));
     fams.push(spec("C03-pin/T300", &["T300"], k2(), vec![Op::Put(0, 0), Op::Put(1, 0), Op::Iter, Op::DropIter, Op::Compact(None, None)], if t { 8 } else { 6 }, ck).flush());
+    // several versions of one key with 3000-byte incompressible values in one table (default
+    // 4 KiB blocks): the versions lie in different 2 KiB filter ranges; snapshot gets must find
+    // the older ones through the table's filter block
+    fams.push(
+        spec("C03-bigvals/D", &["D"], k2(), vec![Op::Put(0, 3), Op::Put(1, 3), Op::Snap, Op::Release(0), Op::Flush, Op::Compact(None, None)], if t { 6 } else { 4 }, ck)
+            .with_setup(vec![Op::Put(0, 3), Op::Snap, Op::Put(0, 3)]),
+    );
     // shortenable index separators and a filter that lets every lookup through: a snapshot read of
     // a key whose only entries in a newer file are too new runs past the end of that file's block
     fams.push(spec("C03-gap/T300p", &["T300p"], k3g(), a_c03_small3(), if t { 6 } else { 4 }, ck).flush());
